@@ -26,7 +26,7 @@ def _search(ctx, deep=False):
     rng = np.random.RandomState(ctx.seed + 66)
     N = ctx.scale(120, 800) * (3 if deep else 1)
     viol, ev = C05.probe_d16(), 1
-    tags = {}
+    tags, ctags = {}, {}
     for t in range(N):
         cfg = kc.gen_config(rng, latlon_ok=True, strat=t)
         # force zero measurement error: exact mode, or explicit zero error, or nugget-free model
@@ -54,19 +54,37 @@ def _search(ctx, deep=False):
         ev += 1
         mtag = kc.mnt_tag(cfg2)
         tags[mtag] = tags.get(mtag, 0) + 1
+        # repeated stations: a datum is honoured exactly where NO other conditioning point lies inside the isclose band of
+        # lag 0 (theorem C06.rhs_is_column_exact: there the right-hand side is the matrix column); points of a coincident group
+        # carry contradictory data — there (and everywhere) the result is the direct solution of the system
+        co = kc.coincidence(cfg2, model)
+        iso = co["isolated"]
+        ctags[kc.coin_tag(cfg2, model)] = ctags.get(kc.coin_tag(cfg2, model), 0) + 1
+        if not iso.all():
+            ref = kc.solve_direct(cfg2, model, cfg2["cond_pos"], ext_t=cfg2["ext"][0] if cfg2["ext"] else None)
+            if ref["cond"] <= 1e7 and np.all(np.isfinite(ref["z"])):
+                tol = 1e-9 * max(ref["cond"], 1) * (1 + np.abs(ref["raw"]).max())
+                ev += 1
+                if not (C05.close_nan(fr, ref["raw"], tol) and np.allclose(vr, ref["var"], atol=tol)):
+                    viol.append({"key": f"krige:coincident:direct-solve:{cfg2['variant']}:{mode}", "what": "kriging at (nearly) coincident conditioning "
+                                 "points differs from solving the kriging system directly (plain covariance off the diagonal, error / nugget "
+                                 "on the diagonal only)", "case": cdesc, "got": [np.asarray(fr).tolist(), np.asarray(vr).tolist()],
+                                 "want": [ref["raw"].tolist(), ref["var"].tolist()], "cond": ref["cond"]})
+        var_same = np.array_equal(v, vr)          # (the variance does not depend on post-processing: all points)
+        f, fr, v, cv = f[iso], fr[iso], v[iso], cv[iso]
         # through mean / normalizer / trend: the post-processed field returns the data themselves ...
-        if not C05.close_nan(f, cv, C05.data_tol(cfg2, cond)):
+        if not C05.close_nan(f, cv, C05.data_tol(cfg2, cond, np.nonzero(iso)[0])):
             viol.append({"key": f"krige:exactness:{cfg2['variant']}:{mode}", "what": "kriged field at conditioning points differs from the data (" + mtag + ")",
-                         "case": cdesc, "got": np.asarray(f).tolist(), "want": np.asarray(cv).tolist(), "cond": cond})
+                         "case": cdesc, "isolated_points": np.nonzero(iso)[0].tolist(), "got": np.asarray(f).tolist(), "want": np.asarray(cv).tolist(), "cond": cond})
         # ... and the raw field returns the independently prepared data normalize(cond_val - trend) - mean
-        z = kc.prepared_data(cfg2)
-        if not C05.close_nan(fr, z, 1e-7 * (1 + np.abs(z).max()) * max(1.0, cond / 1e3)):
+        z = kc.prepared_data(cfg2)[iso]
+        if not C05.close_nan(fr, z, 1e-7 * (1 + np.abs(z).max(initial=0.0)) * max(1.0, cond / 1e3)):
             viol.append({"key": f"krige:exactness-raw:{cfg2['variant']}:{mode}", "what": "raw kriged field at conditioning points differs from "
                          "normalize(cond_val - trend) - mean (" + mtag + ")",
                          "case": cdesc, "got": np.asarray(fr).tolist(), "want": np.asarray(z).tolist(), "cond": cond})
         # zero measurement error on a model WITH nugget: the datum is honoured, the variance is the nugget
         v_expected = model.nugget if mode == "zero-err" else 0.0
-        if not (np.all(np.abs(v - v_expected) <= 1e-7 * model.sill * max(1.0, cond / 1e3)) and np.array_equal(v, vr)):
+        if not (np.all(np.abs(v - v_expected) <= 1e-7 * model.sill * max(1.0, cond / 1e3)) and var_same):
             viol.append({"key": f"krige:zero-variance:{cfg2['variant']}:{mode}", "what": "kriging variance at conditioning points is not zero",
                          "case": cdesc, "got": np.asarray(v).tolist(), "cond": cond})
         # variance bounds at arbitrary targets
@@ -130,8 +148,62 @@ def _search(ctx, deep=False):
         if not (np.allclose(a[0], b[0], atol=1e-6 * (1 + np.abs(cv2).max())) and np.allclose(a[1], b[1], atol=1e-6)):
             viol.append({"key": "krige:duplicates-pinv", "what": "coincident conditioning points do not act as one point with the mean value",
                          "case": case, "got": [a[0].tolist(), a[1].tolist()], "want": [b[0].tolist(), b[1].tolist()]})
-    return {"evaluations": ev, "violations": viol[:8],
+    # ... and coincident conditioning points WITH measurement errors (regular systems, any variant, pseudo inverse or not) act as
+    # ONE measurement: the precision-weighted mean of the repeated values carrying the error 1 / sum(1 / e_i) — estimate AND
+    # variance at every target.  (Independent of any solve: two calls of the real API.  Fails when the error term leaks off
+    # the diagonal, when errors are attached to the wrong points, or when repeated stations are merged without their errors.)
+    merged = {}
+    for t in range(ctx.scale(40, 250)):
+        cfg = kc.gen_config(rng, latlon_ok=True, mnt=False, groups=False, strat=2 * t + 1)
+        cfg["exact"] = False
+        nb = cfg["cond_pos"].shape[1]
+        mult = rng.randint(1, 4, size=nb)
+        mult[int(rng.randint(nb))] += 1
+        pi = np.repeat(np.arange(nb), mult)
+        rng.shuffle(pi)
+        ek = str(rng.choice(["nugget", "scalar", "array"]))
+        cfg["nugget"] = float(rng.choice([0.125, 0.5])) if ek == "nugget" or rng.rand() < 0.5 else 0.0
+        if ek == "nugget":
+            e = np.full(len(pi), cfg["nugget"])
+        elif ek == "scalar":
+            e = np.full(len(pi), float(rng.choice([0.0625, 0.25])))
+        else:
+            e = rng.randint(1, 5, len(pi)) / 16.0
+        dup = dict(cfg, cond_pos=cfg["cond_pos"][:, pi], cond_err="nugget" if ek == "nugget" else (float(e[0]) if ek == "scalar" else e))
+        dup["cond_val"] = kc.gen_values(rng, dup, dup["cond_pos"])
+        w = 1.0 / e
+        wsum = np.array([w[pi == a].sum() for a in range(nb)])
+        one = dict(cfg, cond_val=np.array([(w * dup["cond_val"])[pi == a].sum() for a in range(nb)]) / wsum, cond_err=1.0 / wsum)
+        if cfg["ext"] is not None:
+            dup["ext"] = (cfg["ext"][0][:, pi], cfg["ext"][1])
+        try:
+            with warnings.catch_warnings():
+                warnings.simplefilter("ignore")
+                a = kc.call(kc.build(dup), dup, store=False)
+                b = kc.call(kc.build(one), one, store=False)
+                mdl = kc.make_model(np.random.RandomState(cfg["model_seed"]), cfg["dim"], cfg["latlon"], cfg["temporal"],
+                                    nugget=cfg["nugget"], unit=kc.unit_of(cfg))
+                cond = max(kc.solve_direct(dup, mdl, cfg["pos"])["cond"], kc.solve_direct(one, mdl, cfg["pos"])["cond"])
+        except Exception as ex:
+            merged["rejected:" + type(ex).__name__] = merged.get("rejected:" + type(ex).__name__, 0) + 1
+            continue
+        if cond > 1e6:
+            continue
+        ev += 1
+        mk = f"{cfg['variant']}/err={ek}/pinv={cfg['pinv']}"
+        merged[mk] = merged.get(mk, 0) + 1
+        tol = 1e-9 * cond * (1 + np.abs(b[0]).max() + np.abs(dup["cond_val"]).max())
+        if not (np.allclose(a[0], b[0], atol=tol) and np.allclose(a[1], b[1], atol=tol)):
+            viol.append({"key": f"krige:duplicates-with-errors:{cfg['variant']}:{ek}", "what": "coincident conditioning points with measurement errors "
+                         "do not act as one measurement (precision-weighted mean value, error 1/sum(1/e_i)): estimate / variance differ",
+                         "case": dict(kc.describe(dup), multiplicities=mult.tolist(), model=repr(mdl)), "got": [a[0].tolist(), a[1].tolist()],
+                         "want": [b[0].tolist(), b[1].tolist()], "cond": cond})
+    return {"evaluations": ev, "violations": viol[:8], "distribution": {"coincidence": ctags, "merged_with_errors": merged},
             "summary": "real Krige variants (+ generic class): data reproduced through mean/normalizer/trend (6 non-identity normalizers x constant/callable "
                        f"mean x trend: {len(tags)} combinations) and zero variance at conditioning points (exact mode / zero error / no nugget), raw field = "
                        "independently prepared data, 0 <= var (<= sill for simple), coincident points (1-5 locations, multiplicities 1-4) with pinv/pinvh = merged points "
-                       "with mean values + Penrose equations of the captured pseudo-inverse; " + hsum}
+                       "with mean values + Penrose equations of the captured pseudo-inverse; exactness asserted at the conditioning points without another point "
+                       "inside the isclose band of lag 0, coincident groups compared with the direct solve "
+                       f"({sum(v for k, v in ctags.items() if not k.startswith('coin:distinct'))} layouts with repeated / nearly repeated stations); "
+                       f"coincident points WITH errors (nugget / scalar / per-point, all variants, pinv on/off) = one point with the precision-weighted "
+                       f"mean and error 1/sum(1/e): {sum(v for k, v in merged.items() if not k.startswith('rejected'))} systems; " + hsum}
